@@ -21,10 +21,11 @@ OVERLAY = {"pkg/metadata/zz_verif_lease_test.go": "lease_verif_test.go", "pkg/me
 
 # deviation cfg suffix -> (invariant TLC must report, must the schedule be imposable on any tree?)
 DEV18 = {"Release": ("C18_AtMostOneLive", False), "ReleaseSafe": ("C18_ReleaseSafe", True),
-         "ReleaseRace": ("C18_AtMostOneLive", False), "PutIfOwnerOther": ("C18_AtMostOneLive", True)}
+         "ReleaseRace": ("C18_AtMostOneLive", False), "PutIfOwnerOther": ("C18_AtMostOneLive", True),
+         "ReacqBlind": ("C18_AtMostOneLive", True)}
 # Release / ReleaseRace interleave a Release with the same broker's acquire: the repaired tree serialises the two, so the
 # acquire step blocks ("not replayed", still observed).  ReleaseSafe and PutIfOwnerOther contain no such step.
-DEV20 = {"Rev": "C20_Converged", "RevReconnect": "C20_Converged"}
+DEV20 = {"Rev": "C20_Converged", "RevReconnect": "C20_Converged", "DropSameRev": "C20_Converged", "NoReload": "C20_Converged"}
 GATES18 = ["lease.afterSession", "lease.afterTxn", "lease.afterReacquire", "lease.release", "lease.monitor"]
 GATES20 = ["router.beforeWatch"]
 
@@ -120,7 +121,7 @@ def common_tail(ctx, prop, scheds, labels, rows, runs, router, must_force, mcs, 
             inv, "router" if router else "lease managers", ev["ev"], labels[idx], scheds[idx]["kind"], path), {"schedule": scheds[idx], "event": ev}))
     aborted = [i for i, run in enumerate(runs) if any(r["ev"] == "Abort" for r in run)]
     for i in aborted:
-        if labels[i] in must_force:
+        if labels[i] in must_force and not violations:  # a violation observed on the real code is a verdict regardless of steering
             why = [r for r in runs[i] if r["ev"] == "Abort"][0]
             raise Broken("deviation schedule %s could not be imposed on the real code: %s" % (labels[i], json.dumps(why)))
     if len(aborted) != notrep:
@@ -253,7 +254,7 @@ def self_test18(ctx, runs):
 
 
 # ------------------------------------------------------------------------------------------------ C20
-ROUTER_ACTIONS = ["AdminPut", "AdminDel", "Load", "WatchStart", "Deliver", "Invalidate"]
+ROUTER_ACTIONS = ["AdminPut", "AdminDel", "AdminDelAll", "Compact", "Load", "WatchStart", "Deliver", "Invalidate"]
 
 
 def check20(ctx, prop):
@@ -303,7 +304,7 @@ def check20(ctx, prop):
         dead = [a for a in ROUTER_ACTIONS + ["WatchClose"] if extra["action_coverage"].get(a, 0) == 0]
         if dead:
             raise Broken("vacuous model: actions never taken: %s" % dead)
-    return common_tail(ctx, prop, scheds, labels, rows, runs, True, {"dev:Rev", "dev:RevReconnect"}, mcs, st, extra, [
+    return common_tail(ctx, prop, scheds, labels, rows, runs, True, {"dev:" + k for k in DEV20}, mcs, st, extra, [
         "quiescent = the router's watch is established and every change of the prefix with revision >= the watch's start revision has been handed to the router (counted from the revisions etcd returned to the admin client)",
         "the router's table is read through LookupOwner for the schedule's keys and AllRoutes for anything else; etcd's owners through a fresh Get of the prefix by the admin client",
         "watch responses come from the real etcd watch; the wrapper only splits them per revision, forwards them when the schedule says so and closes the channel for WatchClose (what clientv3 does after compaction or a cancelled stream)",
